@@ -127,6 +127,27 @@ def graph_refs(st):
     return mgrun.stmt_refs(st)
 
 
+def mixed_flag_view_chain(n, prog, env, types):
+    """Mechanism probe for the known finding: tensor n is a view (MyGrad reports a base) and, walking its defining view calls back to
+    that base, the chain of family members carries BOTH flags (a constant tensor above a non-constant view or the reverse)."""
+    t = env.get(n)
+    if not mgrun.is_tensor(t) or t.base is None:
+        return False
+    flags_seen = {bool(t.constant)}
+    cur, hops = n, 0
+    while hops < 30:
+        stc = next((q for q in prog if q.get("out") == cur and q["k"] == "call"), None)
+        par = next((r for r in (mgrun.stmt_refs(stc) if stc else []) if types.get(r, ("", ""))[0] == "tensor"), None)
+        pt = env.get(par) if par else None
+        if pt is None or not (pt is t.base or pt.base is t.base):
+            break
+        flags_seen.add(bool(pt.constant))
+        if pt is t.base:
+            break
+        cur, hops = par, hops + 1
+    return len(flags_seen) == 2
+
+
 def model_flags(prog, it_types, raised):
     """Reference model of the constant flag of every tensor-valued name. it_types: name -> ('tensor'|'array'|'other', dtype kind)."""
     flags, must_raise = {}, {}
@@ -271,6 +292,7 @@ def run_case(case):
         if st["k"] == "backward" and i in it.raised and st["tgt"] in it.env:
             viol.append({"monitor": "backward", "mech": f"backward-raises:{type(it.raised[i]).__name__}",
                          "msg": f"backward of {st['tgt']} (statement {i}) raised {type(it.raised[i]).__name__}: {it.raised[i]}"})
+    reach_all = set()
     # M-path: a non-constant tensor holds a gradient after the backward passes exactly when some back-propagated tensor depends on it
     # through non-constant tensors only (a constant on the way neither receives nor transmits)
     if not it.raised or all(prog[i]["k"] != "backward" for i in it.raised):
@@ -280,6 +302,7 @@ def run_case(case):
                 for r in graph_refs(st):
                     if flags.get(r) is False and types.get(r, ("", ""))[0] == "tensor":
                         reach.add(r)
+        reach_all = reach
         bw_first = min((i for i, st in enumerate(prog) if st["k"] == "backward"), default=len(prog))
         created = {st["out"]: i for i, st in enumerate(prog) if "out" in st}
         for n, f in flags.items():
@@ -292,19 +315,9 @@ def run_case(case):
             if (n in reach) != (grads.get(n) is not None):
                 # mechanism probe for the known finding: n is a view (MyGrad: base is a non-constant tensor) reached, walking the view
                 # operations back towards that base, through a CONSTANT view
-                blocked = False
-                if n in reach and t.base is not None and not t.base.constant:
-                    cur, hops = n, 0
-                    while hops < 30:
-                        stc = next((q for q in prog if q.get("out") == cur and q["k"] == "call"), None)
-                        par = next((r for r in (mgrun.stmt_refs(stc) if stc else []) if types.get(r, ("", ""))[0] == "tensor"), None)
-                        pt = it.env.get(par) if par else None
-                        if pt is None or not (pt is t.base or pt.base is t.base):
-                            break
-                        if pt.constant:
-                            blocked = True
-                            break
-                        cur, hops = par, hops + 1
+                # (form A of the known finding: a constant view sits BETWEEN the non-constant base and this non-constant view; a view taken
+                #  directly of a constant base is the repaired case and stays a fresh violation)
+                blocked = n in reach and not t.base.constant and mixed_flag_view_chain(n, prog, it.env, types) if t.base is not None else False
                 viol.append({"monitor": "M-path", "mech": "nonconstant-without-grad" if n in reach else "grad-through-constant", "blocked_by_constant_view": blocked,
                              "msg": f"{n} (non-constant) " + ("is connected to a back-propagated tensor through non-constant tensors but holds no gradient"
                                                                if n in reach else "is connected only through constants (or not at all) yet holds a gradient")})
@@ -353,6 +366,8 @@ def run_case(case):
                 same = bool(np.allclose(g, h, rtol=1e-13, atol=1e-300, equal_nan=True))
             if not same:
                 viol.append({"monitor": "O-meta", "mech": "constant-tensor-vs-array",
+                             # (form B: a dangling view - outside every back-propagated graph - of a non-constant view of a constant base)
+                             "blocked_by_constant_view": n not in reach_all and mixed_flag_view_chain(n, prog, it.env, types),
                              "msg": f"{n}.grad differs when constant tensors {sorted(replaced)} are passed as plain arrays: {None if g is None else g.ravel()[:3]} vs {None if h is None else h.ravel()[:3]}"})
     if any(st["k"] == "backward" and st["tgt"] == "L2" for st in prog):
         cnt["second_graph_backwards"] = 1
@@ -365,7 +380,7 @@ def run_case(case):
 
 def classify(v, case):
     m = v.get("mech") or v["monitor"]
-    if m == "nonconstant-without-grad" and v.get("blocked_by_constant_view"):
+    if m in ("nonconstant-without-grad", "constant-tensor-vs-array") and v.get("blocked_by_constant_view"):
         return "view-of-constant-view-reads-no-grad"
     return m
 
